@@ -501,6 +501,23 @@ def rule_prologue(check):
     R = "PROLOGUE"
     check.rule(R, "the prologue defines a pass-through for every configured replacement name (no filter) and never overwrites an existing hook object: `if (typeof NS === 'undefined') ... globals.NS = globals.NS || { dst: noop, .. }` with noop = (res) => res")
     prog = check.prog
+    # the prologue must run before any hook call of the file: it goes right after the leading directives
+    from . import c07 as _c07
+    from ..trav import overrides_of as _ov
+
+    vp = [f_ for f_ in _ov(prog, "BlockTransformVisitor") if f_.name == "visit_mut_program"]
+    for f_ in vp:
+        for g_ in prog.flat(f_, 2):
+            for n_ in g_.nodes():
+                if n_.get("k") == "MethodCall" and n_["method"] in ("insert", "splice") and any(v in (hir.peel(n_["recv"]).get("ty") or "") for v in ("Vec<swc_ecma_ast::Stmt>", "Vec<swc_ecma_ast::ModuleItem>", "Vec<T>")):
+                    idx = n_["args"][0]
+                    if n_["method"] == "splice":
+                        idx = _c07._empty_range(idx)
+                    _c07._PRED_CTX["prog"] = prog
+                    _c07._PRED_CTX["fn"] = g_
+                    idm = _c07.index_idiom(prog, g_, idx) if idx is not None else (None, set(), None)
+                    if idm[0] == "after-last":
+                        check.bad(R, "%s/position/%s" % (R, g_.name), hir.loc(n_), "the file prologue is inserted after the *last* string-literal statement of the file instead of after the leading directives: hook calls above it run before `_ddiast` has its fall-back definition")
     g = prog.fn("rewriter::generate_prefix_stmts")
     fm = fmtargs.formats_in(g)
     ok = False
